@@ -161,6 +161,20 @@ def tags_of(beh):
             t.add("chain:AH")
         elif "HA" in ch:
             t.add("chain:HA")
+    # one working log, file F edited by an agent, then another file, then F again before the commit
+    seg = []
+    for a in beh:
+        if a["a"] == "Edit":
+            w = "A" if a["who"] != "H" else "h"
+            if not seg or seg[-1][0] != a["f"]:
+                seg.append((a["f"], w))
+        elif a["a"] in ("Commit", "Amend", "ResetHard", "StashPush"):
+            for i in range(len(seg) - 2):
+                if seg[i][1] == "A" and seg[i + 1][0] != seg[i][0] and any(x[0] == seg[i][0] for x in seg[i + 2:]):
+                    j = [k for k in range(i + 2, len(seg)) if seg[k][0] == seg[i][0]][0]
+                    t.add("interleave:%s%s%s" % (seg[i][1], seg[i + 1][1], seg[j][1]))
+                    break
+            seg = []
     sessions = {a["who"] for a in beh if a["a"] == "Edit" and a["who"] != "H"}
     if len(sessions) > 1:
         t.add("two-sessions")
